@@ -89,6 +89,26 @@ CLAIMED = {
    note="Trusted: Coq kernel; the real pipeline is the subject of the metamorphic runs (no model of the generators here). Known "
         "finding C11-K1 (order decides which of two colliding declarations survives; consequence of C15).",
    technique="Coq proof (permutation/split invariance of diagnostics and bindings) + metamorphic comparison of the implementation's outputs", design="7/C11"),
+ 'C14': dict(
+   text="Coq theorems about a Gallina state-machine model of FileReaderWriter for EVERY operation sequence on a fresh writer: the "
+        "report lists exactly the files written per generator in order, a generator section exists iff it wrote something, the "
+        "parsed lists are exactly the files read, and nothing is written except through write_header/write_source/copy_*; path "
+        "joining (relative right operand appended, absolute one wins). Tied to /repo by an op-sequence correspondence on the real "
+        "class (vm_compute) and by an oracle over real pipeline runs: feature programs (imports, @extern, async interfaces, loader) "
+        "x output spellings (relative, absolute, split, header nested in source, other working directory) x target subsets x report "
+        "formats x clean with pre-existing files, judging write log, report and file tree against the configuration.",
+   note="Trusted: Coq kernel+vm_compute; pathlib/file system; report serialisers; the in-process write log. Two defects repaired "
+        "(JNI double join a771f07, extern files missing from the report c591a17).",
+   technique="Coq proof (invariant over all op sequences of the writer model) + vm_compute correspondence + pipeline oracle", design="7/C14"),
+ 'C15': dict(
+   text="Coq theorems: for every op sequence pairwise-distinct written paths imply no path receives two contents; the cpp/cppcli file "
+        "name (namespace directories + converted name) is injective on (namespace, converted name) and on canonical lower-case names; "
+        "REFUTED with witnesses for jni, objcpp, yaml (namespace ignored), objc (namespace and name glued) and for style conversion "
+        "(case/underscore) - recorded findings C15-K1..K4. Tied to /repo by comparing the header/source attributes of the real "
+        "marshalling objects with the file-name model (vm_compute) under random naming configurations, and by searching the write log "
+        "of full generations for paths written with two contents.",
+   note="Trusted: Coq kernel+vm_compute; pathlib; the in-process write log. Known findings C15-K1..K4.",
+   technique="Coq proof (injectivity / refutation witnesses of file-name functions, single-writer lemma) + vm_compute correspondence on marshalling attributes", design="7/C15"),
 }
 PENDING_REASON = "check not built yet in this session (work in progress; see DESIGN.md section 10 build order)"
 HOOK_COMMITS = []
